@@ -274,6 +274,10 @@ def main(argv=None):
                     broken = True
                     continue
                 finished.add(f)
+                if deadline is not None and time.time() > deadline:
+                    # verdict already in hand and the grace period is over: results are no longer replayed
+                    cut_short.append("%s%s" % (futs[f]["func"], json.dumps(futs[f]["cfg"], sort_keys=True)))
+                    continue
                 results.append(r)
                 handle(r)
             if broken:
